@@ -119,6 +119,21 @@ def expand(job):
     elif k == "since":
         for _ in range(job["n"]):
             sp = gen.spelling(rnd)
+            if rnd.random() < 0.12:
+                # the last / first day of a year whose neighbour has another length, carried over the year end by 24:00 or by the
+                # UTC offset (late times west of Greenwich, early times east of it)
+                from harness import refcal as R
+                from harness.common import tp_rec
+                if rnd.random() < 0.6:
+                    sp = gen.spelling(rnd, "gregorian")
+                m_ = MEANING[sp]
+                y_ = rnd.choice([1967, 1968, 1969, 1971, 1972, 2019, 2020, 2023, 2024, 1899, 1900, 2000, 1999, 4, 3, 1896])
+                n_ = R.year_start(m_, y_ + 1) - rnd.choice([1, 1, 0])
+                rep_ = rnd.choice(["ord", "ord", "cal", "week"])
+                yy_, a_, b_ = R.date_of(m_, rep_, n_)
+                z_ = rnd.choice([(0, 0), (-5, 0), (-3, -30), (5, 0), (13, 45), (0, -30), (1, 0)])
+                yield {"kind": "since", "mode": sp, "p": tp_rec(rep_, yy_, a_, b_, sod=rnd.choice([DAY, DAY, 86399, 82800, 0, 1800, 7200]), zh=z_[0], zm=z_[1])}
+                continue
             if rnd.random() < 0.15:
                 from harness import refcal as R
                 from harness.common import tp_rec
